@@ -188,6 +188,10 @@ func findGoFiles(cwd, path string) (_ []sourcePath, err error) {
 }
 
 func findFiles(cwd string, patterns []string) (_ []sourcePath, err error) {
+	// Files are identified by their path with symbolic links resolved:
+	// the same file may be reachable under several names when a pattern
+	// (or the working directory) passes through a symlinked directory,
+	// and it must still be patched only once.
 	files := make(map[string]sourcePath)
 
 	for _, pat := range patterns {
@@ -198,17 +202,29 @@ func findFiles(cwd string, patterns []string) (_ []sourcePath, err error) {
 		}
 
 		for _, f := range fs {
-			files[f.Absolute] = f
+			key := f.Absolute
+			if resolved, err := filepath.EvalSymlinks(key); err == nil {
+				key = resolved
+			}
+			if old, ok := files[key]; ok && old.Absolute < f.Absolute {
+				// Keep one name per file, always the same one
+				// no matter how the patterns are ordered.
+				continue
+			}
+			files[key] = f
 		}
 	}
 
-	sortedPaths := make([]sourcePath, 0, len(files))
-	for _, p := range files {
-		sortedPaths = append(sortedPaths, p)
+	keys := make([]string, 0, len(files))
+	for key := range files {
+		keys = append(keys, key)
 	}
-	sort.Slice(sortedPaths, func(i, j int) bool {
-		return sortedPaths[i].Absolute < sortedPaths[j].Absolute
-	})
+	sort.Strings(keys)
+
+	sortedPaths := make([]sourcePath, 0, len(files))
+	for _, key := range keys {
+		sortedPaths = append(sortedPaths, files[key])
+	}
 
 	return sortedPaths, err
 }
